@@ -6,7 +6,7 @@ from typing import Dict, List
 
 from dst.engines.e1_diff import E1Core, E2Actuators, E2Clamp
 from dst.engines.e8_host import E8Actuators, E8Helpers
-from dst.engines.e9_pc import E9Determinism, E9Project, E9Target
+from dst.engines.e9_pc import E9Determinism, E9Hostile, E9Project, E9Target
 
 LEVELS: Dict[str, str] = {"C12": "fault_enumeration"}
 
@@ -18,6 +18,7 @@ _E8_HELP = E8Helpers()
 _E9_TARGET = E9Target()
 _E9_PROJECT = E9Project()
 _E9_DET = E9Determinism()
+_E9_HOSTILE = E9Hostile()
 
 PLANS: Dict[str, List[dict]] = {
     "C01": [{"engine": _E1_CORE, "quick": 2400, "thorough": 40000, "quick_wall_s": 150, "thorough_wall_s": 1500}],
@@ -26,6 +27,7 @@ PLANS: Dict[str, List[dict]] = {
         {"engine": _E2_CLAMP, "quick": 800, "thorough": 10000, "quick_wall_s": 60, "thorough_wall_s": 600},
     ],
     "C10": [{"engine": _E9_DET, "quick": 160, "thorough": 1500, "quick_wall_s": 120, "thorough_wall_s": 1200}],
+    "C11": [{"engine": _E9_HOSTILE, "quick": 400, "thorough": 6000, "quick_wall_s": 120, "thorough_wall_s": 1200}],
     "C12": [{"engine": _E9_TARGET, "quick": 960, "thorough": 20000, "quick_wall_s": 120, "thorough_wall_s": 900}],
     "C13": [{"engine": _E9_PROJECT, "quick": 4000, "thorough": 60000, "quick_wall_s": 90, "thorough_wall_s": 600}],
     "C19": [{"engine": _E8_ACT, "quick": 60000, "thorough": 2000000, "quick_wall_s": 90, "thorough_wall_s": 900}],
